@@ -63,4 +63,21 @@ theorem allCirc_coeffs : gfShot 2 (RingHom.id Q8) (fun u => if u = 0 then 1 else
     gfShot 2 (RingHom.id Q8) (fun u => if u = 7 then 1 else 0) allCirc (ket0 2, 0) = q8Rat (1/4) := by
   decide +kernel
 
+/-! a third circuit: `measure_all` in the X basis on a Bell pair, then a Y-basis measurement -/
+
+def allXCirc : List (COp Empty) :=
+  [.gate .H [0], .gate .CX [0, 1], .measureAll [0, 1] .X, .measure 0 2 .Y]
+
+theorem allXCirc_inF : ∀ op ∈ allXCirc, InF 2 (placed 2) op := by
+  simp [allXCirc, InF, placed, ctlOK, shiftOk, Gate.nrBits]
+
+theorem law_on_allXCirc :
+    expectOrd id (RingHom.id Q8) (execOps (vecBackend (α := Q8) (P := Empty)) (VecState.new 2 2) [0, 0] allXCirc)
+      (SimGF.shotProd xT2) = gfShot 2 (RingHom.id Q8) xT2 allXCirc (ket0 2, 0) ^ 2 := by decide +kernel
+
+/-- single-shot distribution: 000, 011, 100, 111 with probability ¼ each (the X outcomes of a Bell pair agree) -/
+theorem allXCirc_coeffs : ∀ v ∈ [0, 3, 4, 7],
+    gfShot 2 (RingHom.id Q8) (fun u => if u = v then 1 else 0) allXCirc (ket0 2, 0) = q8Rat (1/4) := by
+  decide +kernel
+
 end Q1t.Sim.Witness
